@@ -39,6 +39,7 @@ class Run:
         self.pre_pk = {}
         self.deleted_in_op = set()
         self.pk_mem = {}
+        self.txn_flushed = False
         fk_on = self.cfg.get("fk_on", True)
         key = (os.getpid(), self.cfg["universe"], fk_on)
         self.plan = SP.Plan(case.get("faults") or [])
@@ -52,12 +53,16 @@ class Run:
                 except OSError:
                     pass
             mod = SP.make_module(self.plan)
-            engine = self.m["create_engine"]("sqlite:///" + path, module=mod, connect_args={"timeout": 0},
+            engine = self.m["create_engine"]("sqlite:///" + path, module=mod, connect_args={"timeout": 0, "autocommit": False},
                                              poolclass=self.m["QueuePool"], pool_size=2, max_overflow=0)
 
             @self.m["event"].listens_for(engine, "connect")
             def on_connect(dbc, rec):
+                # documented recipe (dialects/sqlite/base.py): non-legacy transaction control, so that SAVEPOINT is always inside a BEGIN;
+                # the pragma is only effective outside a transaction
+                dbc._real.autocommit = True
                 dbc._real.execute("pragma foreign_keys=%s" % ("on" if fk_on else "off"))
+                dbc._real.autocommit = False
 
             self.U["Base"].metadata.create_all(engine)
             holder = {"run": None}
@@ -148,6 +153,14 @@ class Run:
         cascade in 2.x) and then "won't proceed" at flush; such pairs are not generated"""
         return not (OS.state_of(container) == "transient" and self.in_session(member))
 
+    def move_ok(self, child, new_parent):
+        """R2: a *pending* child that is taken away from a delete-orphan parent is expunged on the spot (documented); attaching it to
+        another parent in the same breath does not bring it back, so that move is not generated"""
+        if "delete-orphan" not in self.U["cfg"]["bs"] or OS.state_of(child) != "pending":
+            return True
+        ok, cur = OS.loaded(child, "a")
+        return (not ok) or cur is None or cur is new_parent
+
     def member_ok(self, x):
         """R2: association changes that involve an object outside the session do not proceed - such members are left alone"""
         st = OS.state_of(x)
@@ -237,6 +250,12 @@ class Run:
             self.V("C39", "unexpected_flush_error", "flush raised FlushError inside documented usage: %s" % str(e)[:120], op=i)
             self.session.rollback()
             self.after_rollback()
+        except self.m["orm_exc"].StaleDataError as e:
+            out = "StaleDataError"
+            self.V("C33", "session_object_without_row", "flush raised StaleDataError: the session holds a persistent object whose row does not exist "
+                   "(%s)" % str(e)[:90], op=i)
+            self.session.rollback()
+            self.after_rollback()
         except exc.DBAPIError as e:
             out = "DBAPIError"
             if not self.plan.fired:
@@ -250,6 +269,7 @@ class Run:
                 any(st.lstrip().split(" ", 1)[0] in ("INSERT", "UPDATE", "DELETE") for st, _p in self.sql):
             # the operation autoflushed: the same row oracle applies, and the snapshot moves on
             self.bump("probe:autoflush")
+            self.txn_flushed = True
             now = self.probe()
             self.pre_pk = dict(self.pk_mem)
             if not (self.session.new or self.session.dirty or self.session.deleted):
@@ -323,7 +343,9 @@ class Run:
         return "B"
 
     def members(self):
-        return {id(o) for o in list(self.session.identity_map.values()) + list(self.session.new)}
+        m = {id(o) for o in list(self.session.identity_map.values()) + list(self.session.new)}
+        m.update(id(e["obj"]) for e in self.entries() if self.in_session(e["obj"]))     # incl. objects in the 'deleted' state
+        return m
 
     def op_add(self, a1, a2):
         e = self.pick(a1, lambda e: OS.state_of(e["obj"]) in ("transient", "detached") and e["cls"] not in ("D", "BL", "R") and not e.get("retired") and
@@ -367,8 +389,12 @@ class Run:
             target = pa["obj"]
         if OS.state_of(b["obj"]) == "transient" and target is None:
             return "skip"
-        if target is not None and not self.pair_ok(b["obj"], target):
+        if target is not None and (not self.pair_ok(b["obj"], target) or not self.move_ok(b["obj"], target)):
             return "skip"
+        if OS.state_of(b["obj"]) == "persistent" and not OS.loaded(b["obj"], "a")[0]:
+            # replacing a many-to-one whose previous value is not loaded fires no removal on the old parent's side (no active_history):
+            # delete-orphan and the backref then have nothing to work with.  Applications read the reference first; so does the harness.
+            b["obj"].a
         before_members = self.members()
         b["obj"].a = target
         if target is not None and self.in_session(b["obj"]):
@@ -384,7 +410,7 @@ class Run:
         if OS.state_of(pa["obj"]) != "transient" or True:
             if b["obj"] in pa["obj"].bs:
                 return "skip"
-        if not self.pair_ok(pa["obj"], b["obj"]):
+        if not self.pair_ok(pa["obj"], b["obj"]) or not self.move_ok(b["obj"], pa["obj"]):
             return "skip"
         before_members = self.members()
         pa["obj"].bs.append(b["obj"])
@@ -417,6 +443,8 @@ class Run:
         k = a2 % (len(cand) + 1)
         new = [cand[(a2 + j) % len(cand)] for j in range(k)]
         new = list(dict.fromkeys(new))
+        if not all(self.move_ok(x, pa["obj"]) and self.pair_ok(pa["obj"], x) for x in new):
+            return "skip"
         before_members = self.members()
         if not all(self.member_ok(x) for x in pa["obj"].bs):
             return "skip"
@@ -590,10 +618,13 @@ class Run:
                 return "skip"
             q["obj"].rs.remove(r)
             self.removed_rs.append(r)
-            if a1 % 2 and OS.state_of(q["obj"]) == "persistent" and q["obj"] not in self.session.deleted:
+            if a1 % 2 and OS.state_of(q["obj"]) == "persistent" and q["obj"] not in self.session.deleted \
+                    and all(OS.state_of(x) == "persistent" for x in q["obj"].rs):
                 self.session.delete(q["obj"])       # remove-then-delete in one flush
             return "%d-=R" % q["label"]
         if how == 3 and OS.state_of(q["obj"]) == "persistent" and q["obj"] not in self.session.deleted:
+            if any(OS.state_of(r) != "persistent" or r in self.session.deleted for r in q["obj"].rs):
+                return "skip"       # R1: a pending child of a parent deleted in the same flush is an invalid final state
             self.session.delete(q["obj"])
             return "del Q%d" % q["label"]
         return "skip"
@@ -627,7 +658,9 @@ class Run:
         for an in OS.rel_attrs(self.U, o):
             ok, v = OS.loaded(o, an)
             members = (list(v) if isinstance(v, list) else ([v] if v is not None else [])) if ok else []
-            if any(OS.state_of(k) in ("pending", "transient") for k in members):
+            if any(OS.state_of(k) in ("pending", "transient", "deleted", "detached") for k in members):
+                # (a member already deleted in this transaction would be cascaded to - and deleted - a second time; with
+                # expire_on_commit=False a stale collection can still hold a member whose row a committed transaction deleted)
                 return "skip"
         self.session.delete(o)
         if a2 % 3 == 0 and e["cls"] == "Node":
@@ -655,12 +688,38 @@ class Run:
                       e["obj"] not in self.session.deleted)
         if e is None:
             return "skip"
-        if self.session.dirty or self.session.new or self.session.deleted:
+        if self.session.dirty or self.session.new or self.session.deleted or self.txn_flushed or self.sp_stack:
             # relationship changes that involve an object which is no longer in the session "won't proceed" (documented warning, R2):
-            # objects are only expunged from a flushed session
+            # objects are only expunged from a session whose work is committed (an expunged object that the open transaction had
+            # inserted or deleted is still rolled back with it, which the lifecycle vocabulary cannot express)
             return "skip"
         o = e["obj"]
         exp = self.closure(o, "expunge")
+        group = {id(o)} | {id(x) for x in exp}
+        # R2: the expunged group must not stay linked (in memory) with objects that remain in the session - later changes of such
+        # links "won't proceed" at flush
+        for x in self.entries(lambda q: self.in_session(q["obj"])):
+            xo = x["obj"]
+            for an in OS.rel_attrs(self.U, xo):
+                ok, v = OS.loaded(xo, an)
+                members = (list(v) if isinstance(v, list) else ([v] if v is not None else [])) if ok else []
+                for y in members:
+                    if (id(xo) in group) != (id(y) in group):
+                        return "skip"
+        tabs = self.prev_tables
+        pk = OS.pk_of(o)
+        own = tabs[self.tab_of(e["cls"])].get(pk) if pk is not None else None
+        fkcols = {"b": ["a_id"], "p": ["a_id"], "node": ["parent_id"], "r": ["q_id"], "h": ["d_id"], "d": ["bl_id"]}.get(self.tab_of(e["cls"]), [])
+        if own is not None and any(own[self.U["tables"][self.tab_of(e["cls"])].index(c)] is not None for c in fkcols):
+            return "skip"
+        if pk is not None and any(pk in (r[0], r[1]) for t2 in ("b_t", "nf") for r in tabs[t2].values()
+                                  if (t2 == "nf" and e["cls"] == "Node") or (t2 == "b_t" and e["cls"] in ("B", "T"))):
+            return "skip"
+        if e["cls"] in ("D", "BL", "R", "B", "P") or (pk is not None and any(
+                row[cols.index(col)] == pk for (t2, col) in (("b", "a_id"), ("p", "a_id"), ("node", "parent_id"), ("r", "q_id"), ("h", "d_id"), ("d", "bl_id"))
+                for cols in [self.U["tables"][t2]] for row in tabs[t2].values()
+                if {"b": ("A", "A2"), "p": ("A", "A2"), "node": ("Node",), "r": ("Q",), "h": ("D",), "d": ("BL",)}[t2].__contains__(e["cls"]))):
+            return "skip"       # rows elsewhere still refer to it: unloaded relationships would tie the detached object to the session
         self.session.expunge(o)
         for x in exp:
             if self.in_session(x):
@@ -742,6 +801,7 @@ class Run:
             sess.commit()
         if had_changes:
             self.bump("probe:flush_with_changes")
+            self.txn_flushed = how != "commit"
         self.adopt()
         now = self.probe(committed=(how == "commit"))
         self.check_rows(now, how)
@@ -755,6 +815,7 @@ class Run:
     def op_commit(self, a1, a2):
         n_sp = len(self.sp_stack)
         r = self._flush("commit")
+        self.txn_flushed = False
         self.sp_stack = []
         self.check_no_stale(self.probe(committed=True), "commit")
         if self.case.get("fresh_session_check", True) and not self.viol:
@@ -768,7 +829,9 @@ class Run:
         return "rollback"
 
     def after_rollback(self):
+        self.txn_flushed = False
         self.sp_stack = []
+        self.removed_rs = []
         self.loaded_before_set.clear()
         self.expect_after_drop = []
         now = self.probe(committed=True)
@@ -816,6 +879,7 @@ class Run:
             return "skip"
         snap = self.sp_stack.pop()
         snap["trans"].rollback()
+        self.removed_rs = []
         self.loaded_before_set.clear()
         self.expect_after_drop = []
         now = self.probe()
@@ -848,6 +912,9 @@ class Run:
         return False
 
     def op_close(self, a1, a2):
+        if self.session.new or self.session.dirty or self.session.deleted or any(
+                OS.state_of(e["obj"]) == "deleted" for e in self.entries()):
+            return "skip"      # closing with work in flight is a rollback; objects in the 'deleted' state would be left in limbo
         self.session.close()
         self.new_session()
         self.prev_tables = self.probe(committed=True)
@@ -935,8 +1002,8 @@ class Run:
         e = self.pick(a1, lambda e: OS.state_of(e["obj"]) == "persistent" and self.in_session(e["obj"]) and e["obj"] not in self.session.deleted)
         if e is None:
             return "skip"
-        if e["obj"] in self.session.dirty and a2 % 2 == 0:
-            return "skip"
+        if self.session.dirty or self.session.deleted or self.session.new:
+            return "skip"      # R3: expire discards un-flushed changes (documented); only a flushed session is expired here
         reach = self.closure(e["obj"], "refresh-expire")
         self.session.expire(e["obj"])
         for x in reach:
@@ -948,6 +1015,8 @@ class Run:
         return e["label"]
 
     def op_expire_all(self, a1, a2):
+        if self.session.dirty or self.session.deleted or self.session.new:
+            return "skip"      # R3
         self.session.expire_all()
         return "expire_all"
 
@@ -1358,11 +1427,19 @@ class Run:
                 if cur == "unloaded" and src != "unloaded":
                     cur = src      # first seen in this operation (created by a loader or adopted): accept its first event's source
                 if src != cur:
+                    # rollback of a transaction that had inserted the object: the transaction still counts an object that was expunged
+                    # meanwhile as its own and sends it to transient, announcing that from the state it last had *in* the session
+                    if kind in ("rollback", "sp_rollback") and cur == "detached" and name == "persistent_to_transient":
+                        cur = dst
+                        continue
                     ok = False
                     break
                 cur = dst
             if ok and cur != after and not (cur == "unloaded" and not evs):
-                ok = False
+                # an object that leaves the session in a rollback and whose row never got committed ends up without identity key
+                # ("transient"); the event vocabulary only has *_to_detached for leaving from the deleted state: same exit
+                if not (kind in ("rollback", "sp_rollback") and {cur, after} == {"detached", "transient"}):
+                    ok = False
             if b == "unloaded" and not evs:
                 ok = True       # adopted without having been observed before
             if not ok:
